@@ -2,6 +2,7 @@ package props
 
 import (
 	"context"
+	"encoding/json"
 	"fmt"
 	"reflect"
 	"testing"
@@ -19,7 +20,7 @@ import (
 type C13Pub struct {
 	ID      int `json:"id"`
 	Variant int `json:"variant"`
-	Bad     int `json:"bad,omitempty"` // 0 encodable; 1 channel, 2 func, 3 NaN: no JSON encoding
+	Bad     int `json:"bad,omitempty"` // 0 encodable; 1 channel, 2 func, 3 NaN, 4 the event is an invalid json.RawMessage: no JSON encoding
 }
 
 type C13Scenario struct {
@@ -46,7 +47,7 @@ func genC13(rt *rapid.T) core.Scenario {
 			id++
 			pb := C13Pub{ID: id, Variant: rapid.IntRange(0, 5).Draw(rt, "variant")}
 			if rapid.IntRange(0, 4).Draw(rt, "unencodable") == 4 {
-				pb.Bad = rapid.IntRange(1, 3).Draw(rt, "badKind")
+				pb.Bad = rapid.IntRange(1, 4).Draw(rt, "badKind")
 			}
 			l = append(l, pb)
 			total++
@@ -137,6 +138,13 @@ func (sc *C13Scenario) Execute(t *testing.T) *core.Outcome {
 					return
 				}
 				id, ok := sh.IDOf(ev)
+				if raw, isRaw := ev.(json.RawMessage); isRaw {
+					n, _ := fmt.Sscanf(string(raw), `{"id":%d,`, &id)
+					ok = n == 1 && et == reflect.TypeOf(json.RawMessage{})
+					if ok {
+						et = sh.RT // normalised: the type check below is per shape
+					}
+				}
 				errCalls = append(errCalls, c13ErrCall{ID: id, OK: ok, Type: et, Err: err})
 				rec.Add("err-handler", id, 0, "")
 				if sc.Reentrant {
@@ -183,7 +191,10 @@ func (sc *C13Scenario) Execute(t *testing.T) *core.Outcome {
 				for _, p := range l {
 					rec.Add("pub", p.ID, p.Bad, "")
 					start := time.Now()
-					if p.Bad > 0 {
+					if p.Bad == 4 {
+						// a json.RawMessage that is not valid JSON has no JSON encoding either (json.Marshal validates it)
+						eventbus.PublishContext(bus, ctx, json.RawMessage(fmt.Sprintf(`{"id":%d,"truncated`, p.ID)))
+					} else if p.Bad > 0 {
 						eventbus.PublishContext(bus, ctx, mkUnencodable(p.ID, p.Bad))
 					} else {
 						sh.Pub(bus, ctx, p.ID, p.Variant)
@@ -248,12 +259,24 @@ func (sc *C13Scenario) Execute(t *testing.T) *core.Outcome {
 				out.V("delivery-count", "handler %d received event %d %d times", hi, id, c)
 			}
 			n += c
+			if pubOf[id].Bad == 4 {
+				if c != 0 {
+					out.V("delivery-count", "handler %d received raw event %d", hi, id)
+				}
+				continue
+			}
 			if !ho.Once && c != 1 {
 				out.V("delivery-lost-on-persistence-failure", "handler %d (%+v) received event %d %d times (unencodable=%v); a persistence failure must not stop delivery", hi, ho, id, c, pubOf[id].Bad > 0)
 			}
 		}
-		if ho.Once && n != 1 {
-			out.V("delivery-count", "once handler %d ran %d times over %d publishes", hi, n, len(pubOf))
+		typed := 0
+		for _, p := range pubOf {
+			if p.Bad != 4 {
+				typed++
+			}
+		}
+		if ho.Once && typed > 0 && n != 1 {
+			out.V("delivery-count", "once handler %d ran %d times over %d publishes of its type", hi, n, typed)
 		}
 	}
 	// Append is attempted exactly once per encodable publish, never for unencodable ones (alerts excluded below)
